@@ -212,6 +212,7 @@ static void ph_case(uint64_t i, void *ctx)
 int main(int argc, char **argv)
 {
     mc_init("C14", argc, argv);
+    libast_debug_level = (unsigned) mc_dlevel();        /* --dlevel=N: the whole run at runtime debug level N (default 0) */
     int N = (int) mc_arg_int("N", mc_thorough() ? 8 : 5);
     mc_info("alphabet", "component tuples proto{-,http,tcp,zz,''} x //{-,//} x user{-,u} x passwd{-,p} x host{h,h.x,10.0.0.1,bare path} x port{-,8} x path{-,/,/p,/p@q:r} x query{-,q,a?b} x 5 lookup outcomes; "
             "all strings of length <= %d over {a : / @ ? .} x 5 lookup outcomes; parser stack pre-filled with 0xA5/0x5A; "
